@@ -276,8 +276,12 @@ func c02Helpers(c CaseC02) *hx.Failure {
 		return nil
 	}
 	p := packet.Create(pid)
-	if f := hdr("Create", p, false, true); f != nil {
+	// no flag requested: adaptation_field_control 00 is the reserved value, a helper may default to payload-only instead
+	if f := hdr("Create", p, false, false); f != nil {
 		return f
+	}
+	if p[3]&0x20 != 0 || p[1]&0x40 != 0 {
+		return hx.Failf("create-Create", "Create without options: header %x has flags nobody requested", p[:4])
 	}
 	p = packet.Create(pid, packet.WithHasPayloadFlag, packet.WithPUSI)
 	if f := hdr("Create+options", p, true, true); f != nil {
@@ -331,7 +335,7 @@ func c02Helpers(c CaseC02) *hx.Failure {
 	opts := []func(*packet.Packet){packet.WithHasPayloadFlag, packet.WithPUSI, packet.WithHasAdaptationFieldFlag}
 	if c.OptWin >= 0 && c.OptWin < len(opts) {
 		p = packet.Create(pid, opts[:c.OptWin]...)
-		if f := hdr("Create+window", p, c.OptWin >= 1, true); f != nil {
+		if f := hdr("Create+window", p, c.OptWin >= 1, c.OptWin >= 1); f != nil {
 			return f
 		}
 		if (p[1]&0x40 != 0) != (c.OptWin >= 2) || p[3]&0x20 != 0 {
@@ -362,15 +366,20 @@ func c02Helpers(c CaseC02) *hx.Failure {
 	if int(p[3]&0xf) != c.CC {
 		return hx.Failf("create-CreateDCPacket", "counter %d want %d", p[3]&0xf, c.CC)
 	}
-	keep := clone(c.HPay)
-	p = packet.CreatePacketWithPayload(pid, cc, c.HPay)
+	// a payload that a packet can hold (what a helper does with more than 184 bytes - truncate, refuse - is not stated)
+	hpay := c.HPay
+	if len(hpay) > 184 {
+		hpay = hpay[:184]
+	}
+	keep := clone(hpay)
+	p = packet.CreatePacketWithPayload(pid, cc, hpay)
 	if f := hdr("CreatePacketWithPayload", p, true, true); f != nil {
 		return f
 	}
 	if int(p[3]&0xf) != c.CC {
 		return hx.Failf("create-CreatePacketWithPayload", "counter %d want %d", p[3]&0xf, c.CC)
 	}
-	if !bytes.Equal(keep, c.HPay) {
+	if !bytes.Equal(keep, hpay) {
 		return hx.Failf("create-CreatePacketWithPayload", "helper modified the caller's payload")
 	}
 	pay, err := packet.Payload(p)
@@ -383,7 +392,7 @@ func c02Helpers(c CaseC02) *hx.Failure {
 	}
 	// free SetPayload on a payload-only packet
 	q := packet.Create(pid, packet.WithHasPayloadFlag)
-	n := packet.SetPayload(q, c.HPay)
+	n := packet.SetPayload(q, hpay)
 	qp, qerr := packet.Payload(q)
 	if n != k || qerr != nil || len(qp) < k || !bytes.Equal(qp[:k], keep[:k]) {
 		return hx.Failf("create-SetPayload", "free SetPayload reported %d bytes (want %d); the payload read back (%d bytes, err %v) does not start with them", n, k, len(qp), qerr)
